@@ -34,7 +34,19 @@ def reset_caches():
 
 
 # ------------------------------------------------------- in-memory opacities
+def _publish(cls):
+    """Make a lazily defined harness class reachable by name, so that objects holding one can be pickled."""
+    cls.__module__, cls.__qualname__ = __name__, cls.__name__
+    globals()[cls.__name__] = cls
+    return cls
+
+
+_classes = {}
+
+
 def fake_opacity_class():
+    if 'opacity' in _classes:
+        return _classes['opacity']
     from taurex.opacity import InterpolatingOpacity
 
     class FakeOpacity(InterpolatingOpacity):
@@ -71,10 +83,13 @@ def fake_opacity_class():
         @property
         def resolution(self):
             return float(np.mean(np.diff(self._wn)))
+    _classes['opacity'] = _publish(FakeOpacity)
     return FakeOpacity
 
 
 def fake_cia_class():
+    if 'cia' in _classes:
+        return _classes['cia']
     from taurex.cia import CIA
 
     class FakeCIA(CIA):
@@ -99,7 +114,27 @@ def fake_cia_class():
             for i in range(self._wn.shape[0]):
                 out[i] = np.interp(temperature, self._T, self._x[:, i])
             return out
+    _classes['cia'] = _publish(FakeCIA)
     return FakeCIA
+
+
+# ------------------------------------------------------------ copies of live objects
+CLONE_ROUTES = ('deepcopy', 'pickle', 'copy')
+
+
+def clone(obj, how):
+    """A copy of a live object by one of the standard routes (what multiprocessing samplers, notebooks keeping
+    a reference model, and ``copy.deepcopy(model)`` before a parameter scan do)."""
+    import copy
+    if how == 'deepcopy':
+        return copy.deepcopy(obj)
+    if how == 'pickle':
+        return pickle.loads(pickle.dumps(obj))
+    if how == 'pickle2':
+        return pickle.loads(pickle.dumps(obj, protocol=2))
+    if how == 'copy':
+        return copy.copy(obj)
+    raise ValueError(how)
 
 
 # ------------------------------------------------------------------ tables
@@ -183,7 +218,15 @@ def random_planet_star(rng):
     return spec
 
 
-def random_temperature(rng, kind=None, tmin=150.0, tmax=3000.0):
+def random_temperature(rng, kind=None, tmin=150.0, tmax=3000.0, scaled=None):
+    t = _random_temperature(rng, kind, tmin, tmax)
+    if (rng.random() < 0.12) if scaled is None else scaled:
+        # the shipped TempScaler mixin on top of the profile class (``profile_type = tempscalar+<class>``)
+        t['scale'] = float(rng.uniform(0.6, 1.5))
+    return t
+
+
+def _random_temperature(rng, kind=None, tmin=150.0, tmax=3000.0):
     kind = kind or ['isothermal', 'npoint', 'guillot', 'array'][rng.integers(0, 4)]
     if kind == 'isothermal':
         return {'kind': 'isothermal', 'T': float(rng.uniform(tmin, tmax))}
@@ -217,6 +260,17 @@ def build_temperature(tspec, pmin, pmax, nlayers=None):
     from taurex.data.profiles.temperature import Isothermal, NPoint, Guillot2010
     from taurex.data.profiles.temperature.temparray import TemperatureArray
     k = tspec['kind']
+    if tspec.get('scale') is not None:
+        from taurex.mixin import enhance_class
+        from taurex.mixin.mixins import TempScaler
+
+        def make(klass, **kw):
+            return enhance_class(klass, TempScaler, scale_factor=tspec['scale'], **kw)
+    else:
+        def make(klass, **kw):
+            return klass(**kw)
+    Isothermal, NPoint, Guillot2010, TemperatureArray = [
+        (lambda klass: (lambda **kw: make(klass, **kw)))(c) for c in (Isothermal, NPoint, Guillot2010, TemperatureArray)]
     if k == 'isothermal':
         return Isothermal(T=tspec['T'])
     if k == 'npoint':
@@ -420,7 +474,7 @@ def spec_summary(spec):
         'planet': [round(spec['planet_mass'], 4), round(spec['planet_radius'], 4)],
         'star': [round(spec['star_T'], 1), round(spec['star_radius'], 3)],
         'nlayers': spec['nlayers'], 'P': ['%.3g' % spec['pmax'], '%.3g' % spec['pmin']],
-        'T': spec['temperature']['kind'], 'magnitude': spec['magnitude'],
+        'T': spec['temperature']['kind'] + ('*scaled' if spec['temperature'].get('scale') else ''), 'magnitude': spec['magnitude'],
         'gases': [(g['mol'], g['kind']) for g in spec['gases']], 'fill': spec['fill_gases'],
         'tables': {m: list(t['xsec'].shape) for m, t in spec['tables'].items()},
         'contributions': [c if isinstance(c, str) else c['name'] for c in spec['contributions']],
